@@ -129,7 +129,7 @@ CONTRACTS.append(Contract(
     callees={'validate_namespace': validate_ns_c, 'get_class_store': get_cstore_c, 'InMemoryObjectStore.get': store_get_c,
              '_validate_property': validate_prop_c, 'get_registered_provider': registered_c,
              'CreateInstance': prov_create_c, 'get': qual_get_c},
-    loops={1: LoopSpec(target='pn', types={'pn': Str}), 2: LoopSpec(target='inst_pn', modifies=['$fields'],
+    loops={1: LoopSpec(target='pn', types={'pn': Str}), 2: LoopSpec(target='inst_pn', modifies=['$fields:CIMProperty.name'],
                                                                   types={'inst_pn': Str, 'inst_prop': Ref('CIMProperty'), 'cls_pn': Str})},
     ensures=[('the-provider-is-reached-only-for-an-existing-class', f'old({NEWCLS_OK})'),
              ('the-callers-instance-is-not-renamed', 'NewInstance.classname == old(NewInstance.classname)')],
